@@ -8,9 +8,13 @@ use bytes::{Buf, Bytes};
 
 """
 
-from gen import make_call_rule
+from gen import make_call_rule, make_seq_rule, make_for_index_rule
 
 R_PREALLOC = make_call_rule("R-prealloc", "Vec::with_capacity", "verif_with_capacity", "Ghost(verif_prealloc_budget)")
+
+R_STD_IO = make_seq_rule("R-std-io", "std::io::", "io::")
+R_FOR_ITEMS = make_for_index_rule("items")
+R_DEREF_SLICE = make_seq_rule("R-deref-slice", "&self.buffer[..]", "self.buffer.verif_as_slice()")
 
 UNITS = {
     "resp": {
@@ -19,9 +23,28 @@ UNITS = {
         "specs": ["frame.spec"],
         "parts": [
             ("raw", "prelude/net_prelude.rs", "prelude"),
-            ("raw", "lemmas/resp_lemmas.rs", "lemma"),
-            ("repo", "src/net/frame.rs", {"rules": (R_PREALLOC,)}),
+            ("raw", "lemmas/resp_lemmas.rs", "lemma", {"mod": "frame"}),
+            ("repo", "src/net/frame.rs", {"rules": (R_PREALLOC,), "mod": "frame"}),
         ],
+        "root_uses": "pub use frame::*;\n",
+        "extern": ["bytes"],
+    },
+    "net": {
+        "name": "net",
+        "header": NET_HEADER,
+        "specs": ["frame.spec", "connection.spec"],
+        "parts": [
+            ("raw", "prelude/net_prelude.rs", "prelude"),
+            ("raw", "prelude/conn_prelude.rs", "prelude"),
+            ("raw", "lemmas/resp_lemmas.rs", "lemma", {"mod": "frame"}),
+            ("repo", "src/net/frame.rs", {"rules": (R_PREALLOC,), "mod": "frame", "stub_all": True}),
+            ("raw", "lemmas/conn_lemmas.rs", "lemma", {"mod": "frame"}),
+            ("repo", "src/net/error.rs", {"mod": "error", "only": ["enum Error"]}),
+            ("raw", "lemmas/conn_views.rs", "lemma", {"mod": "connection"}),
+            ("repo", "src/net/connection.rs", {"rules": (R_STD_IO, R_DEREF_SLICE, R_FOR_ITEMS), "mod": "connection"}),
+        ],
+        "mod_uses": {"connection": "use super::frame::{self, Frame};", "error": "use super::command_shim as command;"},
+        "root_uses": "pub use frame::*;\npub use error::Error;\npub use connection::Connection;\n",
         "extern": ["bytes"],
     },
 }
